@@ -124,7 +124,7 @@ namespace smt
         th.cnfl.push_back(lit());
         if (is_positive(l.vars.at(v)))
         { // we compute the lower bound of the linear expression along with its reason..
-            inf_rational lb(0);
+            inf_rational lb(l.known_term);
             for (const auto &[c_v, c] : l.vars)
                 if (is_positive(c))
                     if (is_negative_infinite(th.lb(c_v)))
@@ -195,7 +195,7 @@ namespace smt
         }
         else
         { // we compute the upper bound of the linear expression along with its reason..
-            inf_rational ub(0);
+            inf_rational ub(l.known_term);
             for (const auto &[c_v, c] : l.vars)
                 if (is_positive(c))
                     if (is_positive_infinite(th.ub(c_v)))
@@ -276,7 +276,7 @@ namespace smt
         th.cnfl.push_back(lit());
         if (is_positive(l.vars.at(v)))
         { // we compute the upper bound of the linear expression along with its reason..
-            inf_rational ub(0);
+            inf_rational ub(l.known_term);
             for (const auto &[c_v, c] : l.vars)
                 if (is_positive(c))
                     if (is_positive_infinite(th.ub(c_v)))
@@ -347,7 +347,7 @@ namespace smt
         }
         else
         { // we compute the lower bound of the linear expression along with its reason..
-            inf_rational lb(0);
+            inf_rational lb(l.known_term);
             for (const auto &[c_v, c] : l.vars)
                 if (is_positive(c))
                     if (is_negative_infinite(th.lb(c_v)))
